@@ -2,7 +2,7 @@
     Property theorems only.  The statements are about [combine_paths], the model of
     sciparse::path::combinator::combine, for every hash function standing for SHA-256 and every
     HashMap iteration order (any function returning a permutation). *)
-From Sci Require Import Combine.Model Combine.Spec Combine.Obs Combine.Proofs Combine.ProofsC19 Combine.ProofsC04 Combine.ProofsMeta.
+From Sci Require Import Combine.Model Combine.Spec Combine.Obs Combine.Proofs Combine.ProofsC19 Combine.ProofsC04 Combine.ProofsMeta Combine.ProofsPath Combine.ProofsWF Combine.SpecRules Combine.ProofsSound.
 From Coq Require Import Permutation Sorted.
 Local Open Scope N_scope.
 
@@ -85,3 +85,66 @@ Proof.
   exact (shape_expiry Hfp p (Hs p Hp) Ht).
 Qed.
 Print Assumptions expiry_is_min.
+
+(** Source and destination match the request: for well-formed segments (at least two AS
+    entries, no AS twice, interface ids zero exactly at the two ends, peer hop fields with a
+    non-zero peering interface and the entry's egress) every returned path starts in [src] and
+    ends in [dst]. *)
+Theorem endpoints_match :
+  forall Hid Hfp ord_v ord_e src dst cores non_cores out p,
+    order_ok ord_v ord_e ->
+    Forall wf_segment (cores ++ non_cores) ->
+    combine_paths Hid Hfp ord_v ord_e src dst cores non_cores = Ok out -> In p out ->
+    sp_src p = src /\ sp_dst p = dst.
+Proof.
+  intros Hid Hfp ord_v ord_e src dst cores non_cores out p [Hv He] Hwf Hout Hp.
+  pose proof (combine_endpoints _ _ _ _ _ _ _ _ _ Hv He Hwf Hout) as H. rewrite Forall_forall in H. exact (H p Hp).
+Qed.
+Print Assumptions endpoints_match.
+
+(** The MTU is the minimum over traversed ASes and links: every returned path was built from
+    a search solution, and its metadata MTU is the minimum of 65535 and the values
+    [edge_mtus] lists for the traversed entries of each used segment -- the AS-internal MTU
+    (as u16) of every traversed AS entry, the ingress-link MTU of every entry entered over
+    its construction-ingress link (not at a shortcut entry, not when 0), and the peering-link
+    MTU at a peering crossing.  The metadata interface list and the encoded hop fields are
+    the concatenation of the per-edge lists. *)
+Theorem mtu_is_min :
+  forall Hid Hfp ord_v ord_e src dst cores non_cores out p m,
+    order_ok ord_v ord_e ->
+    combine_paths Hid Hfp ord_v ord_e src dst cores non_cores = Ok out -> In p out ->
+    sp_meta p = Some m ->
+    exists g sol,
+      add_segments [] (input_segments Hid cores non_cores) = Ok g
+      /\ In sol (get_paths ord_v ord_e g src dst) /\ sol_path Hfp sol = Ok (Some p)
+      /\ let l := flat_map edge_mtus (so_edges sol) in
+         md_mtu m <= 65535 /\ (forall x, In x l -> md_mtu m <= x) /\ (md_mtu m = 65535 \/ In (md_mtu m) l)
+         /\ md_ifaces m = Some (flat_map edge_ifs (so_edges sol))
+         /\ map ds_hops (sp_segs p) = map edge_hops (so_edges sol).
+Proof.
+  intros Hid Hfp ord_v ord_e src dst cores non_cores out p m [Hv He] Hout Hp Hm.
+  destruct (combine_solution_of _ _ _ _ _ _ _ _ _ _ Hv He Hout Hp) as (g & sol & Hg & Hs & Hsp).
+  exists g, sol. split; [exact Hg|]. split; [exact Hs|]. split; [exact Hsp|].
+  destruct (sol_path_mtu _ _ _ _ Hsp Hm) as (A & B & C). cbn zeta.
+  destruct (fold_min_spec (flat_map edge_mtus (so_edges sol)) 65535) as (X & Y & Z). rewrite <- A in X, Y, Z. auto 10.
+Qed.
+Print Assumptions mtu_is_min.
+
+(** Soundness: every returned path is a valid combination under the SCION rules of
+    [SpecRules] (one to three segment uses taken from the given core / non-core lists, kinds
+    in an allowed order, each use a suffix of its segment from a shortcut entry or through a
+    peer entry, consecutive uses meeting at a common AS or across one peering link, from [src]
+    to [dst]), and its data-plane path consists, use by use, of exactly the hop fields of
+    that combination in travel order, with the segment's timestamp, the ConsDir flag of the
+    travel direction and the Peering flag of a peering use.  For every input (no
+    well-formedness hypothesis). *)
+Theorem combine_sound :
+  forall Hid Hfp ord_v ord_e src dst cores non_cores out p,
+    order_ok ord_v ord_e ->
+    combine_paths Hid Hfp ord_v ord_e src dst cores non_cores = Ok out -> In p out ->
+    exists uses, ValidCombination cores non_cores src dst uses /\ Forall2 SegOfUse (sp_segs p) uses.
+Proof.
+  intros Hid Hfp ord_v ord_e src dst cores non_cores out p [Hv He] Hout Hp.
+  exact (combine_sound_lemma _ _ _ _ _ _ _ _ _ _ Hv He Hout Hp).
+Qed.
+Print Assumptions combine_sound.
